@@ -14,7 +14,7 @@ func init() {
 }
 
 var jsonClasses = map[string][]string{
-	"C06": {"marshal-error", "invalid-json", "roundtrip-decode-error", "roundtrip-differs", "output-aliased", "driver-panic"},
+	"C06": {"marshal-error", "invalid-json", "roundtrip-decode-error", "roundtrip-differs", "output-aliased", "input-mutated", "driver-panic"},
 	"C07": {"schema-nonconformant", "invalid-json", "marshal-error", "output-aliased", "map-entry-missing"},
 	"C08": {"valid-doc-rejected", "reencode-error", "reencode-differs", "fault-accepted", "fault-error-unnamed", "valid-body-rejected", "panic"},
 }
